@@ -644,7 +644,7 @@ Section Rec.
         rb E. oki E. pose proof (app_good _ _ Gx0 E1).
         match goal with |- good (((if ?cnd then _ else _) ++ _) ++ _) => destruct cnd end; by_template; assumption.
       + simpl in Gx. apply andb_prop in Gx. destruct Gx as [Gx0 Gxr].
-        rb E. oki E. pose proof (deriv_groups_good _ _ _ _ Gx0 Gxr E1). by_template; auto with good.
+        rb E. oki E. pose proof (deriv_groups_good (x1 :: xr) x0 1 _ Gx0 Gxr E1). by_template; auto with good.
     - (* ESubs *)
       apply andb_prop in Gk. destruct Gk as [Ga Gd].
       rb H. oki H. pose proof (app_good _ _ Ga E).
@@ -662,10 +662,11 @@ Section Rec.
       + oki E. apply good_nil.
       + simpl in Gk. apply andb_prop in Gk. destruct Gk as [Gxc Gk]. apply andb_prop in Gxc. destruct Gxc as [Gx0 Gc0].
         destruct pl as [|p1 pl'].
-        * rb E. pose proof (app_good _ _ Gx0 E0).
-          destruct (is_true c0).
-          { oki E. by_template. assumption. }
-          rb E. oki E. pose proof (app_good _ _ Gc0 E1). by_template; assumption.
+        * rb E; oki E; by_template;
+            match goal with
+            | Hg : all_nodes latex_node_ok ?x = true, He : StrModel.app rec FLatex ?x = Ok ?r |- good ?r =>
+                exact (app_good x r Hg He)
+            end.
         * rb E. oki E. pose proof (app_good _ _ Gx0 E0). pose proof (app_good _ _ Gc0 E1).
           pose proof (IHp Gk _ E2). by_template; assumption.
     - (* EBool *) oki H. destruct bv; apply lit_good; reflexivity.
